@@ -79,14 +79,14 @@ func ValidateTransaction(ctx sdk.Ctx, k Keeper, stdTx StdTx, params Params, tmNo
 	}
 	// get the fees from the tx
 	expectedFee := sdk.NewCoins(sdk.NewCoin(sdk.DefaultStakeDenom, k.GetParams(ctx).FeeMultiplier.GetFee(stdTx.Msg)))
+	// validate the fees, whatever the type of the public key
+	if !stdTx.Fee.IsAllGTE(expectedFee) {
+		return types.ErrInsufficientFee(ModuleName, expectedFee, stdTx.Fee)
+	}
 	// test for public key type
 	p, ok := pk.(posCrypto.PublicKeyMultiSig)
 	// if standard public key
 	if !ok {
-		// validate the fees for a standard public key
-		if !stdTx.Fee.IsAllGTE(expectedFee) {
-			return types.ErrInsufficientFee(ModuleName, expectedFee, stdTx.Fee)
-		}
 		// validate signature for regular public key
 		if !simulate && !pk.VerifyBytes(signBytes, stdTx.Signature.Signature) {
 			return sdk.ErrUnauthorized("signature verification failed for the transaction")
